@@ -458,7 +458,7 @@ func check(c *enum.Ctx, r *runner, k kase) {
 
 func run(c *enum.Ctx) {
 	pals.MaxKmerLen = 8
-	c.Rule("fixed backgrounds generated from constants (xorshift with constant seeds; 2 pair backgrounds of 1500/1300 letters, thorough 4 incl. one low-complexity; self: one sequence of 1700); (minHitLen,minId) in {(30,0.9),(50,0.9),(50,0.94),(80,0.85)} as accepted by Optimise with MaxKmerLen lowered to 8; a repeat of length L in {minHitLen+1, +2, +5, +10, 1.5 minHitLen, 3 minHitLen} planted at target positions {0, three interior, end} x 40 consecutive query positions (one full tube period) plus both query ends; variants: exact, a substitution at every third position, 2 and 3 substitutions, a deletion and an insertion of length 1-2 at every tenth position, reverse-complemented copies (complement-strand search), self comparison (also under the permissive settings (80,0.8),(100,0.8),(150,0.85) on sequences of 2000/3500 (5000) letters, where the filter is noisy next to the main diagonal, and at 64 consecutive sequence lengths = every position of the tube grid relative to the main diagonal); a minimum identity of 0 (minimum lengths 60 and 100) with repeats of 87.5 %, 92 % and 95 % identity; targets of 2^k-1, 2^k, 2^k+1 (also 3*2^k, 10^j-1, 10^j, 10^j+1, 5*10^j) letters (k=11..14) and of 6000, 11000, 20000 letters with a comfortable repeat at the start, near it, in the middle and at the end; a query longer than the target (900 vs 1500) with copies before, around and beyond the length of the target; every reverse-complement case and every exact/sub2/sub3 case again as the second Align call on an aligner value that has already searched the other strand (both result sets judged), after a second, rejected Optimise(12, 0.5), through AlignFrom(Trapezoids()) after Align, after a first set-up and use for a minimum length four times as large, with index and settings taken over by Share from an aligner that searched another query, and on an aligner that searched both strands while its query object held other letters, overwritten in place afterwards (quick: alternating); soundness oracle on EVERY hit of every run; recall oracle for identity >= minId+0.05 and a core (the repeat without edits so close to an end that leaving them out scores at least as well: substitutions with < 5, indels of b with < 3b+2 letters beyond them) longer than minHitLen in both sequences; a hit must overlap half of the core in both; non-trivial = every run (each contains a planted repeat)")
+	c.Rule("fixed backgrounds generated from constants (xorshift with constant seeds; 2 pair backgrounds of 1500/1300 letters, thorough 4 incl. one low-complexity; self: one sequence of 1700); (minHitLen,minId) in {(30,0.9),(50,0.9),(50,0.94),(80,0.85)} as accepted by Optimise with MaxKmerLen lowered to 8; a repeat of length L in {minHitLen+1, +2, +5, +10, 1.5 minHitLen, 3 minHitLen} planted at target positions {0, three interior, end} x 40 consecutive query positions (one full tube period) plus both query ends; variants: exact, a substitution at every third position, 2 and 3 substitutions, a deletion and an insertion of length 1-2 at every tenth position, reverse-complemented copies (complement-strand search), self comparison (also under the permissive settings (80,0.8),(100,0.8),(150,0.85) on sequences of 2000/3500 (5000) letters, where the filter is noisy next to the main diagonal, and at 64 consecutive sequence lengths = every position of the tube grid relative to the main diagonal); settings (400,0.94), (400,0.9), (600,0.8), (900,0.9), (1000,0.9), (1200,0.9) on 7000/4500 letters; a minimum identity of 0 (minimum lengths 60 and 100) with repeats of 87.5 %, 92 % and 95 % identity; targets of 2^k-1, 2^k, 2^k+1 (also 3*2^k, 10^j-1, 10^j, 10^j+1, 5*10^j) letters (k=11..14) and of 6000, 11000, 20000 letters with a comfortable repeat at the start, near it, in the middle and at the end; a query longer than the target (900 vs 1500) with copies before, around and beyond the length of the target; every reverse-complement case and every exact/sub2/sub3 case again as the second Align call on an aligner value that has already searched the other strand (both result sets judged), after a second, rejected Optimise(12, 0.5), through AlignFrom(Trapezoids()) after Align, after a first set-up and use for a minimum length four times as large, with index and settings taken over by Share from an aligner that searched another query, and on an aligner that searched both strands while its query object held other letters, overwritten in place afterwards (quick: alternating); soundness oracle on EVERY hit of every run; recall oracle for identity >= minId+0.05 and a core (the repeat without edits so close to an end that leaving them out scores at least as well: substitutions with < 5, indels of b with < 3b+2 letters beyond them) longer than minHitLen in both sequences; a hit must overlap half of the core in both; non-trivial = every run (each contains a planted repeat)")
 	c.Assume("pals.MaxKmerLen is lowered to 8 by the harness (small index)", "identity comfortably above the threshold = at least 0.05 above")
 	work := os.Getenv("VERIF_WORK")
 	if work == "" {
@@ -611,6 +611,18 @@ func run(c *enum.Ctx) {
 					cases = append(cases, kase{BgT: 11, BgQ: 2, LenT: lt, LenQ: lenQ, MinLen: p.minLen, MinId: p.minId, L: L, T0: t0, Q0: 600 + 7*pi, Variant: v})
 				}
 				cases = append(cases, kase{BgT: 11, BgQ: 2, LenT: lt, LenQ: lenQ, MinLen: p.minLen, MinId: p.minId, L: L, T0: t0, Q0: 611, Variant: "exact", Rev: true})
+			}
+		}
+	}
+	// settings in the hundreds and thousands (the program's own default is 400 / 0.94): error budgets
+	// minLen*(1-minId) of 24..120 letters, on a 7000-letter target and a 4500-letter query
+	for _, p := range []struct {
+		ml int
+		id float64
+	}{{400, 0.94}, {400, 0.9}, {600, 0.8}, {900, 0.9}, {1000, 0.9}, {1200, 0.9}} {
+		for _, v := range []string{"exact", "subevery 20"} {
+			for _, rev := range []bool{false, true} {
+				cases = append(cases, kase{BgT: 11, BgQ: 2, LenT: 7000, LenQ: 4500, MinLen: p.ml, MinId: p.id, L: p.ml + p.ml/2, T0: 1000, Q0: 700, Variant: v, Rev: rev})
 			}
 		}
 	}
